@@ -164,7 +164,7 @@ func checkClearsignWith(c ClearsignCase, kr openpgp.EntityList, armored bool, kr
 
 var specC11 = Register(&Spec[ClearsignCase]{
 	Prop: "C11", Name: "clearsign",
-	Rule:  "fault enumeration over clearsigned documents: C07 documents (1..3 paragraphs, LF) signed with clearsign.Encode by an RSA entity from a per-process pool; keyring = signer only / signer among others / others only / empty for the unmutated document; the same keyring OBJECT changed in place (to other keys, to no keys) between two reads of the same bytes - the second read must fail; then with the signer in the keyring EVERY single-byte substitution (XOR 0x01, XOR 0x20, 'A'), EVERY single-byte deletion, EVERY single-byte insertion ('A', blank, newline), EVERY truncation length, splices of a foreign paragraph before the armor, inside the signed text, between text and signature, inside the signature armor and after it, replacement of the signature by that of another key or of another text, and removal of the signature block; a second complete clearsigned document appended (same signer, other signer, a replay of the first); the binary signature truncated at 8 lengths or with one byte flipped (every byte in the thorough tier, every 7th in quick) and armored afresh with a correct checksum, alone and under an altered text; each character of the armor's CRC-24 line replaced by other base64 characters (must fail: the signature is damaged, as gpgv says too). Oracle: reading (ParagraphReader.All and Decoder.Decode) ends in an error, or succeeds with Signer() == signing entity in the keyring and paragraphs == those of the signed text; success with a nil signer is allowed only when the input no longer starts with the armor header; the unmutated document with the signer in the keyring must be accepted. Non-trivial: every faulted case; distinct by (bytes, keyring).",
+	Rule:  "fault enumeration over clearsigned documents: C07 documents (1..3 paragraphs, LF) signed with clearsign.Encode by an RSA entity from a per-process pool; keyring = signer only / signer among others / others only / empty for the unmutated document; the same keyring OBJECT changed in place (to other keys, to no keys) between two reads of the same bytes - the second read must fail; then with the signer in the keyring EVERY single-byte substitution (XOR 0x01, XOR 0x20, 'A'), EVERY single-byte deletion, EVERY single-byte insertion ('A', blank, newline), EVERY truncation length, splices of a foreign paragraph before the armor, inside the signed text, between text and signature, inside the signature armor and after it, replacement of the signature by that of another key or of another text, and removal of the signature block; a second complete clearsigned document appended (same signer, other signer, a replay of the first); the binary signature truncated at 8 lengths or with one byte flipped (every byte in the thorough tier, every 7th in quick) and armored afresh with a correct checksum, alone and under an altered text; each character of the armor's CRC-24 line replaced by other printable characters, also with an armor-END look-alike or a whole second signed document behind the damaged block (must fail: the signature is damaged, as gpgv says too). Oracle: reading (ParagraphReader.All and Decoder.Decode) ends in an error, or succeeds with Signer() == signing entity in the keyring and paragraphs == those of the signed text; success with a nil signer is allowed only when the input no longer starts with the armor header; the unmutated document with the signer in the keyring must be accepted. Non-trivial: every faulted case; distinct by (bytes, keyring).",
 	Check: checkClearsign,
 })
 
@@ -239,6 +239,27 @@ func enumerateClearsignFaults(b SignBase, thorough bool, yield func(ClearsignCas
 			}
 			p := crcAt + i
 			c := mk(mut(func(o []byte) []byte { o[p] = repl; return o }), fmt.Sprintf("armor-crc-%c@%d", repl, i))
+			c.MustFail = true
+			if !yield(c) {
+				return false
+			}
+		}
+	}
+	// a damaged checksum line stays damaged whatever follows the signature armor: loose text that
+	// looks like an armor END line, or a whole second signed document with a good checksum of its own
+	if crcAt >= 0 {
+		p := crcAt + 3
+		bad := mut(func(o []byte) []byte { o[p] = '='; return o })
+		if signed[crcAt+3] != 'A' {
+			bad2 := mut(func(o []byte) []byte { o[p] = 'A'; return o })
+			c := mk(append(append([]byte{}, bad2...), []byte("\nTrailing: text\n-----END PGP SIGNATURE-----\n")...), "armor-crc-A+trailing-end-line")
+			c.MustFail = true
+			if !yield(c) {
+				return false
+			}
+		}
+		for name, tail := range map[string][]byte{"trailing-end-line": []byte("\nTrailing: text\n=AAAA\n-----END PGP SIGNATURE-----\n"), "second-document": signed} {
+			c := mk(append(append([]byte{}, bad...), tail...), "armor-crc-=+"+name)
 			c.MustFail = true
 			if !yield(c) {
 				return false
